@@ -169,8 +169,70 @@ End GlobTie.
 Lemma tie_glob_match p t fuel : (glob_fuel p t <= fuel)%nat -> g_glob_match fuel p t = Some (glob_match p t).
 Proof. apply tie_glob_match_aux. Qed.
 
+
+(** ** plan.rs: is_excluded *)
+Lemma trim_end_matches_slash s : trim_end_matches s 47 = trim_end_slash s.
+Proof. induction s as [|x r IH]; [reflexivity|]. cbn [trim_end_matches trim_end_slash]. rewrite IH. reflexivity. Qed.
+
+Lemma tie_is_excluded rel excludes : g_is_excluded rel excludes = is_excluded rel excludes.
+Proof.
+  unfold g_is_excluded, is_excluded.
+  match goal with |- context [for_loop excludes ?bd tt] => set (body := bd) end.
+  assert (Hin : forall pat cs,
+            for_loop cs (fun (comp0 : comp) (_ : unit) =>
+                           match comp0 with CNormal c => if glob_match pat c then inr true else inl tt | _ => inl tt end) tt
+            = if any_normal glob_match pat cs then inr true else @inl unit bool tt).
+  { intros pat cs. induction cs as [|c cs IH]; [reflexivity|]. cbn [for_loop any_normal].
+    destruct c as [| | |c0]; try exact IH. destruct (glob_match pat c0); [reflexivity|exact IH]. }
+  assert (Hloop : forall l, for_loop l body tt = if is_excluded_with glob_match rel l then inr true else inl tt).
+  { induction l as [|pat0 l IH]; [reflexivity|]. cbn [for_loop is_excluded_with]. unfold body at 1. cbv zeta.
+    rewrite trim_end_matches_slash.
+    destruct (trim_end_slash pat0) as [|x r] eqn:Et.
+    - cbn [lenZ length Z.of_nat Z.eqb]. exact IH.
+    - assert (Hne : (lenZ (x :: r) =? 0) = false) by (unfold lenZ; apply Z.eqb_neq; cbn [length]; lia).
+      rewrite Hne. change (containsZ (x :: r) 47) with (has_slash (x :: r)).
+      destruct (has_slash (x :: r)).
+      + destruct (glob_match (x :: r) rel); [reflexivity|exact IH].
+      + rewrite Hin. destruct (any_normal glob_match (x :: r) (components rel)); [reflexivity|exact IH]. }
+  rewrite Hloop. destruct (is_excluded_with glob_match rel excludes); reflexivity.
+Qed.
+
+(** ** plan.rs: build_plan - the two `for` loops that push onto the plan are [plan_source] / [plan_delete] *)
+Lemma tie_build_plan src dst excludes with_delete :
+  g_build_plan src dst excludes with_delete = build_plan src dst excludes with_delete.
+Proof.
+  unfold g_build_plan, build_plan. cbv zeta.
+  match goal with |- context [for_loop src ?bd _] => set (body1 := bd) end.
+  assert (H1 : forall l tr sk del,
+            for_loop l body1 (Build_sync_plan tr sk del)
+            = inl (Build_sync_plan (tr ++ fst (plan_source l dst excludes)) (sk + snd (plan_source l dst excludes)) del)).
+  { induction l as [|[path smeta] l IH]; intros tr sk del; cbn [for_loop plan_source].
+    - cbn [fst snd]. rewrite app_nil_r, Z.add_0_r. reflexivity.
+    - unfold body1 at 1. cbv beta iota. destruct (plan_source l dst excludes) as [tr' sk'] eqn:Eps.
+      destruct (is_excluded path excludes); cbv beta iota.
+      + rewrite IH. reflexivity.
+      + destruct (needs_transfer smeta (mm_get path dst)); cbv beta iota zeta; cbn [transfer skipped sp_delete]; rewrite IH; cbn [fst snd].
+        * rewrite <- app_assoc. reflexivity.
+        * f_equal. f_equal. lia. }
+  rewrite H1. destruct (plan_source src dst excludes) as [tr sk]. cbn [fst snd app Z.add].
+  destruct with_delete; [|reflexivity].
+  match goal with |- context [for_loop (map fst dst) ?bd _] => set (body2 := bd) end.
+  assert (H2 : forall l tr0 sk0 del,
+            for_loop (map fst l) body2 (Build_sync_plan tr0 sk0 del)
+            = inl (Build_sync_plan tr0 sk0 (del ++ plan_delete src l excludes))).
+  { induction l as [|[path m] l IH]; intros tr0 sk0 del; cbn [map fst for_loop plan_delete].
+    - rewrite app_nil_r. reflexivity.
+    - unfold body2 at 1. cbv beta iota.
+      destruct (negb (mm_mem path src) && negb (is_excluded path excludes)); cbv beta iota zeta; cbn [transfer skipped sp_delete]; rewrite IH.
+      + rewrite <- app_assoc. reflexivity.
+      + reflexivity. }
+  rewrite H2. reflexivity.
+Qed.
+
 Definition plan_model_is_translation : Prop :=
   (forall src dst, g_needs_transfer src dst = needs_transfer src dst) /\
-  (forall (p t : list Z) (fuel : nat), (glob_fuel p t <= fuel)%nat -> g_glob_match fuel p t = Some (glob_match p t)).
+  (forall (p t : list Z) (fuel : nat), (glob_fuel p t <= fuel)%nat -> g_glob_match fuel p t = Some (glob_match p t)) /\
+  (forall rel excludes, g_is_excluded rel excludes = is_excluded rel excludes) /\
+  (forall src dst excludes with_delete, g_build_plan src dst excludes with_delete = build_plan src dst excludes with_delete).
 Lemma plan_model_is_translation_holds : plan_model_is_translation.
-Proof. split; [exact tie_needs_transfer|exact tie_glob_match]. Qed.
+Proof. split; [exact tie_needs_transfer|]. split; [exact tie_glob_match|]. split; [exact tie_is_excluded|exact tie_build_plan]. Qed.
